@@ -2478,6 +2478,21 @@ func (d *Document) parseRun(decoder *xml.Decoder, startElement xml.StartElement)
 				if err := d.skipElement(decoder, t.Name.Local); err != nil {
 					return nil, err
 				}
+			case "fldChar":
+				// 域字符（begin/separate/end）
+				run.FieldChar = &FieldChar{FieldCharType: getAttributeValue(t.Attr, "fldCharType")}
+				if err := d.skipElement(decoder, t.Name.Local); err != nil {
+					return nil, err
+				}
+			case "instrText":
+				// 域指令文本
+				instr := &InstrText{Space: getAttributeValue(t.Attr, "space")}
+				content, err := d.readElementText(decoder, "instrText")
+				if err != nil {
+					return nil, err
+				}
+				instr.Content = content
+				run.InstrText = instr
 			default:
 				if err := d.skipElement(decoder, t.Name.Local); err != nil {
 					return nil, err
